@@ -263,6 +263,9 @@ def gen_scenario(s: Choices, cls, cfg):
             sc["fault"].update(pos=s.draw(1000), mode=s.draw(2))
     else:
         sc["fault"] = None
+    # pre-emptive pool model (task bodies in real threads, one at a time, pre-empted at drawn
+    # library lines): fault-free runs only
+    sc["preempt"] = sc["fault"] is None and s.chance(1, 4)
     return sc
 
 
@@ -619,11 +622,13 @@ def execute(sc, sched: Choices, cls, cfg):
                 _outcome(lambda: _call(kernel, codes_in, bw_values, ngroups, mask_in, n_threads, rc))
         this_fault = _gen.arm_stmt_fault(this_fault, dry.count)
         rec["probes"].append("stmt_fault_armed")
-    ctx = executor.SimContext(sched=sched, workers=sc["workers"], cpu_count=4, fault=this_fault, monitor=True)
+    ctx = executor.SimContext(sched=sched, workers=sc["workers"], cpu_count=4, fault=this_fault, monitor=True, preempt=sc.get("preempt", False))
     with executor.use_context(ctx):
         block = _outcome(lambda: _call(kernel, codes_in, bw_values, ngroups, mask_in, n_threads, rc))
     if ctx.fault_where:
         rec["fault_sites"] = [ctx.fault_where]
+    rec["n_preemptions"] = ctx.stats.get("preemptions", 0)
+    rec["preempt_sites"] = sorted(ctx.preempt_sites)
     rec["ticks"] = ctx.ticks
     rec["interleavings"] = ctx.interleavings()
     rec["events"] = ctx.event_digest()
